@@ -340,10 +340,13 @@ func (update *Update) Prepend(eventlist *EventList) error {
 	if last < ours-1 {
 		return errors.New("missing events")
 	}
-	min := int(1 + last - ours)
-	if min > len(update.Events) {
+	// number of our events that the prepended list already covers; compared as uint64, since the
+	// (untrusted) index of the list may be arbitrarily large
+	covered := 1 + last - ours
+	if covered > uint64(len(update.Events)) {
 		return errors.New("events too new")
 	}
+	min := int(covered)
 
 	n := &Update{
 		SignedAccumulator: update.SignedAccumulator,
